@@ -481,6 +481,40 @@ def apply_ghost(text, label, ghost, report):
             j += 1
         return kw_i, brace, m.group(1)
 
+    # N4c: `for (i, x) in v.iter().enumerate() {` over a loop no desugar section names is written as the plain loop over
+    # `v.iter()` with an explicit counter (declared before the loop, read and incremented at the top of the body: the meaning
+    # of Enumerate); the loop's ghost sections - written for the plain loop - then still apply, and the counter is tied to the
+    # ghost position of the iterator by one generated invariant.  So a change that merely starts enumerating a loop is judged.
+    ENUM_LOOPS = {}
+    desugared_ = {int(a_.split(None, 1)[0]) for k_, a_, b_ in secs if k_ == "desugar"}
+    for mm_ in list(re.finditer(r"/\*@L(\d+)\*/", text)):
+        k = int(mm_.group(1))
+        if k in desugared_:
+            continue
+        kw_i, brace_i, kw = marked_loop(k)
+        if kw != "for" or brace_i is None:
+            continue
+        hm_ = re.match(r"for \((\w+), ([&\w ]+)\) in (.+?)\.iter\(\)\.enumerate\(\)\s*$", text[kw_i:brace_i].strip(), re.S)
+        if not hm_:
+            continue
+        cnt = "i__e%d" % k
+        ls = text.rfind("\n", 0, kw_i) + 1
+        ind = re.match(r"[ \t]*", text[ls:]).group(0)
+        text = (text[:ls] + ind + "let mut %s: usize = 0;\n" % cnt + text[ls:kw_i]
+                + "for %s in %s.iter() " % (hm_.group(2).strip(), hm_.group(3).strip())
+                + "{ let %s = %s; %s += 1;" % (hm_.group(1), cnt, cnt) + text[brace_i + 1:])
+        ENUM_LOOPS[k] = cnt
+        _bump(report, "N4c enumerate() loop written as the plain loop with an explicit counter")
+    if ENUM_LOOPS:
+        secs2 = []
+        for kind, arg, body in secs:
+            if kind == "loop" and int(arg.split()[0]) in ENUM_LOOPS:
+                k = int(arg.split()[0])
+                itn_ = next((p_[5:] for p_ in arg.split()[1:] if p_.startswith("iter=")), None)
+                if itn_ and any(l.strip().startswith("invariant") for l in body):
+                    body = list(body) + ["        %s == %s.index@," % (ENUM_LOOPS[k], itn_)]
+            secs2.append((kind, arg, body))
+        secs = secs2
     for kind, arg, body in secs:
         if kind == "desugar":
             ks, rest = arg.split(None, 1)
